@@ -41,30 +41,31 @@ Print Assumptions C08_distinct_ids_legal.
    the MINIMAL prefix it needs -- before every popped item the bytes already acknowledged were still short of
    `size` -- and it stops as soon as it has enough, or hits the EOF marker, or the queue is empty (then it
    blocks); the items of r stay queued and un-credited, and no other stream is credited.  The buffer may be a
-   registered or a released one (`lookup`) *)
+   registered or a released one (`lookup`).  Stated for a live connection: on a closed one the acknowledgement's
+   flush() may raise (deleted transport), depending on h2's outbound queue, which is not modelled *)
 Theorem C08_read_credits_minimal_prefix :
   forall s sid size b s' o,
-  lookup sid (reg s) = Some b -> bpend b = None -> 0 < size ->
+  closing s = false -> lookup sid (reg s) = Some b -> bpend b = None -> 0 < size ->
   step s (Read sid size) = (s', o) ->
   exists p r b', bq b = p ++ r /\ lookup sid (reg s') = Some b' /\ bq b' = r /\ brel b' = brel b /\
     credited sid o = qsum p /\ credited_conn o = qsum p /\ (forall x, x <> sid -> credited x o = 0) /\
     queued sid s' = qsum r /\
     (forall p1 it p2, p = p1 ++ it :: p2 -> backed b + lsum p1 < size) /\
     (r = [] \/ size <= backed b + lsum p \/ exists p0 m, p = p0 ++ [m] /\ it_ack m = 0).
-Proof. exact read_backpressure. Qed.
+Proof. exact read_backpressure_live. Qed.
 Print Assumptions C08_read_credits_minimal_prefix.
 
 (* (3') the same when a read that was blocked on the empty queue is resumed *)
 Theorem C08_resumed_read_credits_minimal_prefix :
   forall s sid size b s' o,
-  lookup sid (reg s) = Some b -> bpend b = Some size -> bq b <> [] ->
+  closing s = false -> lookup sid (reg s) = Some b -> bpend b = Some size -> bq b <> [] ->
   step s (Wake sid) = (s', o) ->
   exists p r b', bq b = p ++ r /\ lookup sid (reg s') = Some b' /\ bq b' = r /\ brel b' = brel b /\
     credited sid o = qsum p /\ credited_conn o = qsum p /\ (forall x, x <> sid -> credited x o = 0) /\
     queued sid s' = qsum r /\
     (forall p1 it p2, p = p1 ++ it :: p2 -> backed b + lsum p1 < size) /\
     (r = [] \/ size <= backed b + lsum p \/ exists p0 m, p = p0 ++ [m] /\ it_ack m = 0).
-Proof. exact wake_backpressure. Qed.
+Proof. exact wake_backpressure_live. Qed.
 Print Assumptions C08_resumed_read_credits_minimal_prefix.
 
 (* (3'') data arriving for an active (registered) call is queued, not credited *)
